@@ -42,11 +42,18 @@ def parseShape : Nat → List String → Option (Shape × List String)
 inductive Cur where
   | none
   | it (sh : Shape) (st : State sh)
-  | json (j : JIt)
+  | json (j : JIt Int)
+  | jsonL (j : JIt (List Int))     -- JSONIter[[]int]
 
 def parseInts (ts : List String) : Option (List Int) := ts.mapM String.toInt?
 def parseToks (ts : List String) : Option (List (Option Int)) :=
   ts.mapM fun t => if t == "x" then some none else (t.toInt?).map some
+/-- list-valued tokens: `x` malformed, `e` the empty array, otherwise comma-separated ints -/
+def parseLToks (ts : List String) : Option (List (Option (List Int))) :=
+  ts.mapM fun t =>
+    if t == "x" then some none
+    else if t == "e" then some (some [])
+    else ((t.splitOn ",").mapM String.toInt?).map some
 
 def showList (xs : List Int) : String := "[" ++ ",".intercalate (xs.map toString) ++ "]"
 
@@ -63,22 +70,29 @@ def step (c : Cur) (line : String) : Cur × String :=
     | none => (c, "bad-op")
   | "jnew" :: ts =>
     match parseToks ts with
-    | some toks => (.json { toks := toks }, "ok")
+    | some toks => (.json (JIt.fresh 0 toks), "ok")
+    | none => (c, "bad-op")
+  | "jlnew" :: ts =>
+    match parseLToks ts with
+    | some toks => (.jsonL (JIt.fresh [] toks), "ok")
     | none => (c, "bad-op")
   | ["next"] =>
     match c with
     | .it sh st => let r := next sh st; (.it sh r.1, toString r.2)
     | .json j => let r := j.next; (.json r.1, toString r.2)
+    | .jsonL j => let r := j.next; (.jsonL r.1, toString r.2)
     | .none => (c, "bad-op")
   | ["val"] =>
     match c with
     | .it sh st => (c, toString (val sh st))
     | .json j => (c, if j.err then "err" else toString j.val)
+    | .jsonL j => (c, if j.err then "err" else showList j.val)
     | .none => (c, "bad-op")
   | ["close"] =>
     match c with
     | .it sh st => let st' := close sh st; (.it sh st', s!"closes={(source sh st').closes}")
     | .json j => (.json j.close, "closed")
+    | .jsonL j => (.jsonL j.close, "closed")
     | .none => (c, "bad-op")
   | ["stat"] =>
     match c with
